@@ -357,10 +357,39 @@ func c04RandFloat(r *kit.Rand) float64 {
 }
 
 func c04GenRandom(r *kit.Rand, i int) c04Case {
-	words := []string{"ns", "MB", "ns", "MB", "B", "sec", "op", "s", "GC", "nsx", "xns", "MBs", "nsns", "MBMB", "Ns", "mb", "bytes", "allocs", "cycle", "µs", "x.y", "%", "1", "ns1", "KB", "GB", "nsec", "n", "M", "é"}
-	seps := []string{"/", "/", "*", "-", " ", "//", "**", "--", "  ", "/*", "*/", "-/", " / "}
+	// (non-ASCII letters whose UTF-8 form holds the bytes 0xA0 / 0x85, and multi-byte
+	// Unicode spaces as separators, were added after seeding round 2: a byte-wise
+	// tokeniser splits the former and misses the latter)
+	words := []string{"ns", "MB", "ns", "MB", "B", "sec", "op", "s", "GC", "nsx", "xns", "MBs", "nsns", "MBMB", "Ns", "mb", "bytes", "allocs", "cycle", "µs", "x.y", "%", "1", "ns1", "KB", "GB", "nsec", "n", "M", "é",
+		"àns", "nsà", "ÅMB", "MBÅ", "†ns", "à", "…ns"}
+	seps := []string{"/", "/", "*", "-", " ", "//", "**", "--", "  ", "/*", "*/", "-/", " / ", "\u2009", "\u3000", "\u00a0", "\u0085", "\u2003/"}
 	n := r.Range(1, 6)
 	var sb strings.Builder
+	if r.Chance(0.06) {
+		// numerator components whose factors cancel exactly: a times ns (1e-9) and
+		// b times MB (1e6) with 9a = 6b; the unit must still be rewritten although
+		// the value does not change (seeding round 2: `if factor == 1 { return unit }`).
+		comps := []string{"ns", "ns", "MB", "MB", "MB"}
+		if r.Chance(0.2) {
+			comps = append(comps, comps...)
+		}
+		kit.Shuffle(r, comps)
+		for j, c := range comps {
+			if j > 0 {
+				sb.WriteString(kit.Pick(r, []string{"*", "-", "*", "**"}))
+			}
+			sb.WriteString(c)
+		}
+		if r.Chance(0.5) {
+			sb.WriteString(kit.Pick(r, []string{"/op", "/ns", "/MB/s", "/x"}))
+		}
+		vals := make([]kit.F, r.Range(1, 6))
+		for j := range vals {
+			vals[j] = kit.F(c04RandFloat(r))
+		}
+		kit.Count("units whose ns/MB factors cancel exactly", 1)
+		return c04Case{Unit: kit.B(sb.String()), Vals: vals, Lower: r.Bool(), Assume: r.Chance(0.7)}
+	}
 	if r.Chance(0.05) {
 		sb.WriteString(kit.Pick(r, seps))
 	}
